@@ -765,6 +765,7 @@ impl<Aux> Vm<'_, Aux> {
     /// As such running non-compiler emitted programs is very un-safe
     pub fn run(&mut self, program: &CaoCompiledProgram) -> ExecutionResult<()> {
         self.runtime_data.current_program = program as *const _;
+        let call_depth = self.runtime_data.call_stack.len();
         self.runtime_data
             .call_stack
             .push(CallFrame {
@@ -780,6 +781,10 @@ impl<Aux> Vm<'_, Aux> {
         let mut instr_ptr = 0;
         let result = self._run(&mut instr_ptr);
         self.runtime_data.current_program = std::ptr::null();
+        // drop the entry frame, and the frames of calls that were still active if the run failed
+        while self.runtime_data.call_stack.len() > call_depth {
+            self.runtime_data.call_stack.pop();
+        }
         result
     }
 
